@@ -13,7 +13,7 @@ from .worlds import INEXACT, MISSING, NANQ, SCALE, f2q
 
 
 # ------------------------------------------------------------------ variables
-def add_data_vars(w: dict, rng: random.Random, *, rich: bool = True) -> None:
+def add_data_vars(w: dict, rng: random.Random, *, rich: bool = True, late: bool = False) -> None:
     """Attach extra dimensions and tagged data variables to a geometric world."""
     tname = "time" if w["conv"] == "shoc_simple" else "t"
     extras = [{"name": "t", "size": 2, "coord": {"name": tname, "kind": "time", "values": [0, 6]}},
@@ -51,6 +51,9 @@ def add_data_vars(w: dict, rng: random.Random, *, rich: bool = True) -> None:
     add("plotv", "face", gg, "f8", 0.2)
     add("pu", "face", list(g), "f8")
     add("pv", "face", list(g), "f4", 0.1)
+    if late:       # a variable that is added to the dataset later, in place (Mutate events)
+        add("late_face", "face", ["t"] + list(g), "f8")
+        specs[-1]["late"] = True
     if rich:
         for kind in kinds:
             if kind == "face":
@@ -76,7 +79,7 @@ def tlc_vars(w: dict) -> list[dict]:
                 gridpos.append(dims.index(gd) + 1 if gd in dims else 0)
         out.append({"name": v["name"], "kind": kind, "dims": dims, "shape": shape, "gridpos": gridpos,
                     "base": v.get("base", 0), "missing": list(v.get("missing", [])), "geometry": False,
-                    "dtype": v.get("dtype", "f8")})
+                    "dtype": v.get("dtype", "f8"), "late": bool(v.get("late", False))})
     return out
 
 
@@ -128,7 +131,21 @@ def run_event(w, ds, conv, e: dict) -> dict:
     e = dict(e)
     a = e["a"]
     kind_enum = type(next(iter(conv.grid_kinds)))
-    if a == "Polygons":
+    if a == "Mutate":
+        # the dataset object is modified IN PLACE (same object, same bound convention): every data variable is replaced
+        # by itself + off, and the variables flagged `late` are added
+        def mutate():
+            for v in w["vars"]:
+                if v.get("late"):
+                    if v["name"] not in ds.variables:
+                        vv = dict(v, base=v["base"] + e["total"])       # so that it, too, reads as tag + total offset
+                        ds[v["name"]] = W.var_array(w, vv)
+                        continue
+                old = ds[v["name"]]
+                ds[v["name"]] = (old + numpy.asarray(e["off"], dtype=old.dtype)).astype(old.dtype).assign_attrs(old.attrs)
+            return 1
+        e["obs"] = outcome(mutate)
+    elif a == "Polygons":
         e["obs"] = outcome(lambda: {"polys": [polygon_vertices(p) for p in conv.polygons],
                                     "mask": [bool(m) for m in conv.mask]})
     elif a == "Centres":
